@@ -53,17 +53,25 @@ def run(cmd, cwd=None, env=None, timeout=None, check=True, capture=True, stdin=N
 _built = {}
 
 
-def build_harness(name="vh", tags="verif"):
-    """Build a harness command from /verif/harness against /repo's current working tree."""
-    key = (name, tags)
+def build_harness(name="vh", tags="verif", race=False):
+    """Build a harness command from /verif/harness against /repo's current working tree.
+    race=True: a second binary <name>_race built with the Go race detector (needs cgo; returns None if that build is
+    not possible here, the caller decides what that means)."""
+    key = (name, tags, race)
     if key in _built:
         return _built[key]
     shutil.copyfile(os.path.join(REPO, "go.sum"), os.path.join(HARNESS, "go.sum"))
-    out = os.path.join(WORKBASE, "bin", name)
+    out = os.path.join(WORKBASE, "bin", name + ("_race" if race else ""))
     os.makedirs(os.path.dirname(out), exist_ok=True)
-    cmd = ["go", "build", "-tags", tags, "-o", out, "./cmd/" + name]
-    p = run(cmd, cwd=HARNESS, env=go_env(), timeout=1500, check=False)
+    cmd = ["go", "build"] + (["-race"] if race else []) + ["-tags", tags, "-o", out, "./cmd/" + name]
+    env = go_env()
+    if race:
+        env = dict(env, CGO_ENABLED="1")
+    p = run(cmd, cwd=HARNESS, env=env, timeout=1500, check=False)
     if p.returncode != 0:
+        if race:
+            _built[key] = None
+            return None
         raise Inconclusive("harness build failed (does /repo still compile with -tags verif?):\n" + p.stdout[-6000:])
     _built[key] = out
     return out
